@@ -133,6 +133,9 @@ func rulesC04(c *Ctx) {
 	R.Rule("R2", "crypto.Verify compares the full point k*Y with C (shared with C10.R7)", 1)
 	c.vocabProblems("R1")
 	c.ruleFullPointCompare("R2")
+	R.Rule("R3", "the keys a restart holds are the keys that signed: the keyset path is m/0'/0'/index' and key i its hardened child i for amount 2^i, re-derived from the stored seed and index only (shared with C11.R4 / C09.R6; a different derivation refuses every proof issued before)", 5)
+	c.runOnly("R4", "R3", func(cc *Ctx) { rulesC11(cc) })
+	c.runOnly("R6", "R3", func(cc *Ctx) { cc.c09Constants() })
 	conds := c.c04ElemConds("R1")
 	if conds == nil {
 		return
